@@ -30,6 +30,8 @@ func runC08(c *Check, tier string) {
 	ruleReaderConsumedOnce(c, "R08h", "caching", "output")
 	// the second machine restores what the first one stored
 	useFamily(c, "R08j", famRestore, 20)
+	// what fills the local tier and what is stored for others is whole, published once, and no write error is lost
+	useFamily(c, "R08k", famStore, 20)
 	// a restore on the second machine reports the blobs it could not fetch
 	shareRule(c, "R08i", "an error channel whose sends never block (select/default) has room for at least one error (same obligation as R04d)", 1, "R04d", func(sub *Check) { ruleR04d(sub) }, func(k string) bool { return strings.Contains(k, "output/handlers") || strings.Contains(k, "caching") })
 }
